@@ -1,14 +1,16 @@
 #!/bin/sh
-# MANIFEST.setup_cmd: build everything from files on disk, offline.
-set -e
+# MANIFEST.setup_cmd: build everything from files on disk, offline.  Keep going on a failure in
+# one slice: every check rebuilds exactly what it needs in its own proof / tie stage and reports a
+# failure there, so one slice that does not build cannot take the others down.
 cd "$(dirname "$0")"
 export CARGO_NET_OFFLINE=true
 mkdir -p work build evidence replays
 ./coq/mkproject.sh
-timeout 3400 make -C coq -j16 >work/setup-coq.log 2>&1 || { tail -50 work/setup-coq.log; exit 1; }
+timeout 3400 make -C coq -k -j16 >work/setup-coq.log 2>&1 || { echo "setup: some Coq files did not build (see work/setup-coq.log):"; grep -E "^(File|Error)" work/setup-coq.log | head -20; }
 for d in ocaml/c*/; do
   p=$(basename "$d")
-  [ -f "$d/driver.ml" ] && ./ocaml/build.sh "$p"
+  [ -f "$d/driver.ml" ] && [ -f "$d/model.ml" ] && { ./ocaml/build.sh "$p" || echo "setup: ocaml driver $p did not build"; }
 done
-(cd harness && timeout 3400 cargo build --offline --bins >../work/setup-cargo.log 2>&1) || { tail -50 work/setup-cargo.log; exit 1; }
-echo setup ok
+(cd harness && timeout 3400 cargo build --offline --bins --keep-going >../work/setup-cargo.log 2>&1) || { echo "setup: some harness binaries did not build (see work/setup-cargo.log):"; grep -E "^error" work/setup-cargo.log | head -20; }
+echo setup done
+exit 0
